@@ -106,7 +106,14 @@ def cases(rng, tier, shard, nshards):
         version = "gfa1" if rng.random() < 0.7 else "gfa2"
         lines, feats = gen_graph(rng, version)
         rng.shuffle(lines)
-        yield {"version": version, "lines": lines, "feats": feats}
+        opts = {}
+        if rng.random() < 0.3 and not any("^" in l for l in lines):
+            # the option which does not change what is merged: tracking tags (and "^" in the names
+            # of reverse-complemented members)
+            opts = {"enable_tracking": True}
+            # (cut_counts is outside the claim: it only rescales the count tags -- and raises a
+            #  builtin TypeError when the merged length is unknown, DESIGN 9.5)
+        yield {"version": version, "lines": lines, "feats": feats, "opts": opts}
 
 
 def gfapy_paths(r):
@@ -145,8 +152,11 @@ def run(case, ctx):
         ctx.add("features", f)
     before_text = {O.line_key(l): O.safe_str(l) for l in g.lines}
     in_chain = set(s for c in got for s, _ in c)
-    m = call(ctx, "merge_linear_paths", g.merge_linear_paths)
+    opts = case.get("opts") or {}
+    m = call(ctx, "merge_linear_paths", g.merge_linear_paths, **opts)
     ctx.count("merges")
+    for o in opts:
+        ctx.count("merges_with_" + o)
     if not m.ok:
         ctx.violation("%s/merge-raises/%s/%s" % (version, m.cls(), "+".join(case["feats"]) or "plain"),
                       "%r: %s" % (lines, str(m.exc)[:300]))
@@ -157,6 +167,9 @@ def run(case, ctx):
         return
     ctx.count("invariant_evaluations")
     after = [O.safe_str(l) for l in g.lines]
+    if opts.get("enable_tracking"):
+        # reverse-complemented members are marked with "^" in the name of the merged segment
+        after = [l.replace("^", "") for l in after]
     arecs = [S.parse_line(l, version) for l in after if not l.startswith("#") and not l.startswith("H")]
     ainfo = CH.seg_info(arecs, version)
     # merged segments: sequence, length
